@@ -169,24 +169,21 @@ Proof.
     + apply IH in H. simpl List.length. lia.
     + inversion H; subst. simpl List.length. lia.
 Qed.
+Lemma scan_sat_cnt : forall b l v c, scan_sat b l = (v, c) -> 0 <= c <= Z.of_nat (List.length l).
+Proof.
+  intros b l v c H. unfold scan_sat in H. destruct (scan_digits b l 0 0) as [v1 c1] eqn:E.
+  inversion H; subst. apply scan_digits_cnt in E. lia.
+Qed.
 Lemma strtoul0_cnt : forall l v c, strtoul0 l = (v, c) -> 0 <= c <= Z.of_nat (List.length l).
 Proof.
   intros l v c H. unfold strtoul0 in H.
-  assert (G : forall b l0 v0 c0, (let '(v1, c1) := scan_digits b l0 0 0 in (sat v1, c1)) = (v0, c0) ->
-                                  0 <= c0 <= Z.of_nat (List.length l0)).
-  { intros b l0 v0 c0 H0. destruct (scan_digits b l0 0 0) as [v1 c1] eqn:E. inversion H0; subst.
-    apply scan_digits_cnt in E. lia. }
-  destruct l as [| a l1]; [ eapply G; eauto |].
-  destruct (Z.eq_dec a 48) as [-> | Hn].
-  - destruct l1 as [| x l2]; [ eapply G; eauto |].
-    destruct l2 as [| h r]; [ eapply G; eauto |].
-    destruct (((x =? 120) || (x =? 88)) && isxdigit h).
-    + destruct (scan_digits 16 (h :: r) 0 0) as [v1 c1] eqn:E. inversion H; subst.
-      apply scan_digits_cnt in E. simpl List.length in *. lia.
-    + eapply G; eauto.
-  - assert (H' : (let '(v1, c1) := scan_digits 10 (a :: l1) 0 0 in (sat v1, c1)) = (v, c)).
-    { destruct a; try exact H. repeat (destruct p; try exact H). exfalso. apply Hn. reflexivity. }
-    eapply G; eauto.
+  destruct l as [| a l1]; [ eapply scan_sat_cnt; eauto |].
+  destruct (a =? 48); [| eapply scan_sat_cnt; eauto ].
+  destruct l1 as [| x l2]; [ eapply scan_sat_cnt; eauto |].
+  destruct l2 as [| h r]; [ eapply scan_sat_cnt; eauto |].
+  destruct (((x =? 120) || (x =? 88)) && isxdigit h); [| eapply scan_sat_cnt; eauto ].
+  destruct (scan_sat 16 (h :: r)) as [v1 c1] eqn:E. inversion H; subst.
+  apply scan_sat_cnt in E. cbn [List.length] in *. lia.
 Qed.
 Lemma span_len_bound : forall p l, 0 <= span_len p l <= Z.of_nat (List.length l).
 Proof.
